@@ -19,15 +19,16 @@ Prefixes(c) ==
     << Fr(c, OpText, FALSE, 2), Fr(c, OpPing, TRUE, 2), Fr(c, OpCont, FALSE, 0) >> }
 
 LenClasses == {<<0, "n", FALSE>>, <<1, "n", FALSE>>, <<125, "n", FALSE>>, <<126, "n", FALSE>>,
-               <<65536, "n", FALSE>>, <<5, "top", FALSE>>, <<5, "max", FALSE>>, <<5, "n", TRUE>>}
+               <<65536, "n", FALSE>>, <<5, "top", FALSE>>, <<5, "max", FALSE>>, <<5, "n", TRUE>>,
+               <<268435456, "n", FALSE>>}     \* 2^28 declared, 3 bytes sent (memory clause of C06/C07)
 
 Hdr(c, op, fin, r1, r2, r3, mkok, lc) ==
   [Fr(c, op, fin, lc[1]) EXCEPT !.r1 = r1, !.r2 = r2, !.r3 = r3,
         !.mk = IF mkok THEN (c.role = "server") ELSE (c.role # "server"),
-        !.lk = lc[2], !.nonmin = lc[3],
+        !.lk = lc[2], !.nonmin = lc[3], !.short = IF lc[1] > 1000000 THEN 4 ELSE 0,
         \* a data frame with RSV1 under permessage-deflate carries a real deflate stream
-        !.comp = IF r1 /\ c.pmce /\ IsDataOp(op) /\ lc[2] = "n" THEN "fixed" ELSE "",
-        !.plain = IF r1 /\ c.pmce /\ IsDataOp(op) /\ lc[2] = "n" THEN (IF lc[1] = 0 THEN 1 ELSE lc[1]) ELSE 0]
+        !.comp = IF r1 /\ c.pmce /\ IsDataOp(op) /\ lc[2] = "n" /\ lc[1] < 1000000 THEN "fixed" ELSE "",
+        !.plain = IF r1 /\ c.pmce /\ IsDataOp(op) /\ lc[2] = "n" /\ lc[1] < 1000000 THEN (IF lc[1] = 0 THEN 1 ELSE lc[1]) ELSE 0]
 
 Deviations(r1, r2, r3, mkok, lc) ==
   (IF r1 THEN 1 ELSE 0) + (IF r2 THEN 1 ELSE 0) + (IF r3 THEN 1 ELSE 0) + (IF mkok THEN 0 ELSE 1)
